@@ -509,3 +509,73 @@ sut_mux_session(const char *ics, size_t len, const char *ops, int cap, int mode,
 	/* no cleanup: the process is a sandbox child */
 	return n;
 }
+
+/* ---- C05: serialise the (first) task of ICS after K pops and read it back.
+ * Prints:  A <attrs>            attributes as read
+ *          AO ...               the next NOCC occurrences of the original stream
+ *          TEXT <n>\n<text>     what echs_task_icalify() wrote
+ *          B <attrs>, BO ...    the same for the re-read task
+ * If the original stream has ended after K pops nothing must be written. */
+int
+sut_roundtrip(const char *ics, size_t len, int k, int nocc, sut_buf_t *out)
+{
+	sut_strm_t *h[4];
+	sut_strm_t *h2[4];
+	sut_buf_t txt = {NULL, 0U, 0U};
+	int n = sut_open_streams(ics, len, h, 4);
+	int n2;
+
+	if (n <= 0) {
+		bput(out, "NOTASK\n", 7U);
+		return -1;
+	}
+	bput(out, "A", 1U);
+	dump_task_attrs(out, h[0]->t);
+	bput(out, "\n", 1U);
+	for (int i = 0; i < k; i++) {
+		echs_event_t e = echs_evstrm_pop(h[0]->s);
+		if (echs_nul_event_p(e)) {
+			bprintf(out, "ENDED-AFTER %d\n", i);
+			break;
+		}
+	}
+	sut_task_icalify(h[0], &txt);
+	/* now see what the original has left */
+	for (int i = 0; i < nocc; i++) {
+		echs_event_t e = echs_evstrm_pop(h[0]->s);
+		if (echs_nul_event_p(e)) {
+			bput(out, "AEND\n", 5U);
+			break;
+		}
+		bput(out, "AO ", 3U);
+		binst(out, e.from);
+		bprintf(out, " %lld\n", (long long)e.dur.d);
+	}
+	bprintf(out, "TEXT %zu\n", txt.n);
+	if (txt.n) {
+		bput(out, txt.p, txt.n);
+	}
+	bput(out, "\nENDTEXT\n", 9U);
+	n2 = txt.n ? sut_open_streams(txt.p, txt.n, h2, 4) : 0;
+	if (n2 <= 0) {
+		bprintf(out, "BNOTASK %d\n", n2);
+		return 0;
+	}
+	bput(out, "B", 1U);
+	dump_task_attrs(out, h2[0]->t);
+	bput(out, "\n", 1U);
+	for (int i = 0; i < nocc; i++) {
+		echs_event_t e = echs_evstrm_pop(h2[0]->s);
+		if (echs_nul_event_p(e)) {
+			bput(out, "BEND\n", 5U);
+			break;
+		}
+		bput(out, "BO ", 3U);
+		binst(out, e.from);
+		bprintf(out, " %lld\n", (long long)e.dur.d);
+	}
+	if (n2 > 1) {
+		bprintf(out, "BEXTRA-TASKS %d\n", n2 - 1);
+	}
+	return 0;
+}
